@@ -12,6 +12,13 @@ Definition l2 (t : T * T) : list T := let '(a, b) := t in [a; b].
 Definition l3 (t : T * T * T) : list T := let '(a, b, c) := t in [a; b; c].
 Definition l4 (t : T * T * T * T) : list T := let '(a, b, c, d) := t in [a; b; c; d].
 
+Lemma l2_inj x y : l2 x = l2 y -> x = y.
+Proof. destruct x as [a b], y as [a' b']. cbn. intros H. injection H as -> ->. reflexivity. Qed.
+Lemma l3_inj x y : l3 x = l3 y -> x = y.
+Proof. destruct x as [[a b] c], y as [[a' b'] c']. cbn. intros H. injection H as -> -> ->. reflexivity. Qed.
+Lemma l4_inj x y : l4 x = l4 y -> x = y.
+Proof. destruct x as [[[a b] c] d], y as [[[a' b'] c'] d']. cbn. intros H. injection H as -> -> -> ->. reflexivity. Qed.
+
 Context (L : NormLits N).
 
 (* ---------------------------------------------------------------- flipNormalTowardOriginCoordinate = flip_cart *)
@@ -137,5 +144,86 @@ Lemma tie_plane_H3 (kd_find : K -> T * T * T * T -> Z -> list Z) points kd idx k
      eig_vec N es 2 0, eig_vec N es 2 1, eig_vec N es 2 2).
 Proof. intros Hk Hlen. plane_tie @src_planeEstimation_H3 l4 3%nat 4%nat kd_find points idx k. Qed.
 End Plane.
+
+(* ---------------------------------------------------------------- compute (the caller's kd-tree) *)
+Definition eig_shape (dim : nat) (r : list T * list (list T)) : Prop :=
+  length (fst r) = dim /\ length (nth 0 (snd r) []) = dim.
+
+Ltac head t := lazymatch t with ?f _ => head f | _ => t end.
+(* destruct the (tuple-valued) call of f that blocks the reduction *)
+Ltac destruct_call f :=
+  match goal with |- context [?x] =>
+    lazymatch x with _ _ => idtac end;
+    let h := head x in constr_eq h f;
+    lazymatch type of x with (_ * _)%type => idtac end;
+    destruct x as [? ?] eqn:?; destruct_tuples end.
+(* expose the new state of one pass of the loop of compute(): the array reads at index i are named, the calls are replaced *)
+Ltac body_simpl planetie flipf i :=
+  rewrite planetie by auto; cbv beta iota zeta;
+  repeat (rewrite ?arr_set_same; cbv beta iota zeta;
+          match goal with |- context [?f i] =>
+            is_var f; lazymatch type of (f i) with (_ * _)%type => destruct (f i) as [? ?] eqn:?; destruct_tuples end end);
+  rewrite ?arr_set_same; cbv beta iota zeta;
+  destruct_call flipf; cbv beta iota zeta.
+
+Section Compute.
+Context {K : Type} (eig : list (list T) -> list T * list (list T)).
+
+Lemma tie_compute_kd_ncr_H3 (kd_find : K -> T * T * T * T -> Z -> list Z) points size kd normals curvatures reliab k
+      nbi0 es0 a0 a1 a2 v00 v01 v02 v10 v11 v12 v20 v21 v22 :
+  (0 <= k)%Z -> (0 <= size)%Z ->
+  (forall p, length (kd_find kd p k) = Z.to_nat k) ->
+  let nb j := map (fun i => l4 (points i)) (kd_find kd (points j) k) in
+  (forall j, (0 <= j < size)%Z -> eig_shape 3 (eig (covariance N 3 4 (nb j)))) ->
+  let '(nrm, cv, rl, _, _, _, _, _, _, _, _, _, _, _, _, _, _) :=
+    src_compute_kd_ncr_H3 N kd_find eig points size kd normals curvatures reliab k nbi0 es0 a0 a1 a2 v00 v01 v02 v10 v11 v12 v20 v21 v22 in
+  forall j,
+    ((0 <= j < size)%Z ->
+     let e := estimate_point N eig false 3 4 (l4 (points j)) (nb j) (l4 (normals j)) in
+     l4 (nrm j) = e_normal e /\ cv j = e_curvature e /\ rl j = e_reliability e) /\
+    (~ (0 <= j < size)%Z -> nrm j = normals j /\ cv j = curvatures j /\ rl j = reliab j).
+Proof.
+  intros Hk Hsz Hkd nb Hshape. subst nb. unfold src_compute_kd_ncr_H3.
+  match goal with |- context [fold_left ?g (zrange size) ?init] =>
+    set (G := g); destruct (fold_left G (zrange size) init) as [? ?] eqn:EF end; destruct_tuples.
+  intros j.
+  match goal with |- (_ -> l4 (?nrm j) = _ /\ ?cv j = _ /\ ?rl j = _) /\ _ =>
+    match type of EF with fold_left _ _ ?init = ?tup =>
+      let ty := type of tup in
+      pose (get := fun (st : ty) (i : Z) =>
+        (l4 (ltac:(let q := proj_of nrm tup st in exact q) i), ltac:(let q := proj_of cv tup st in exact q) i,
+         ltac:(let q := proj_of rl tup st in exact q) i));
+      pose (F := fun (i : Z) (old : list T * T * T) =>
+        let e := estimate_point N eig false 3 4 (l4 (points i))
+                   (map (fun i0 => l4 (points i0)) (kd_find kd (points i) k)) (fst (fst old)) in
+        (e_normal e, e_curvature e, e_reliability e));
+      assert (Hother : forall s i j, j <> i -> get (G s i) j = get s j);
+      [ intros s i j' Hne; destruct_tuples; unfold get, G; body_simpl (tie_plane_H3 eig kd_find) (@src_flip_H3) i;
+        cbn [fst snd]; rewrite !arr_set_other by exact Hne; reflexivity | ];
+      assert (Hsame : forall s i, (0 <= i < Z.of_nat (Z.to_nat size))%Z -> get (G s i) i = F i (get s i));
+      [ intros s i Hi; pose proof (Hshape i ltac:(lia)) as [Hs1 Hs2]; destruct_tuples; unfold get, G, F;
+        body_simpl (tie_plane_H3 eig kd_find) (@src_flip_H3) i; cbn [fst snd]; rewrite !arr_set_same;
+        repeat match goal with E : ?x = (_, _) |- context [?x] => rewrite E end;
+        match goal with E : ?x = ?tup |- _ => let h := head x in constr_eq h (@src_flip_H3); rewrite <- E end;
+        rewrite tie_flip_H3; unfold estimate_point;
+        match goal with |- context [eig ?C] => destruct (eig C) as [lam vecs] end;
+        cbn [eig_val eig_vec fst snd e_normal e_curvature e_reliability] in *; unfold write_normal;
+        first [rewrite (firstn_nth3 (nzero N)) by assumption | rewrite (firstn_nth2 (nzero N)) by assumption];
+        cbn [l2 l3 l4 skipn app];
+        match goal with |- (?a, ?b, ?c) = (?a', ?b', ?c') =>
+          assert (H1 : a = a') by reflexivity; assert (H3 : c = c') by reflexivity;
+          assert (H2 : b = b') by (unfold curvature, vsum, eig_sum, vcoord;
+                                   repeat (destruct lam as [|? lam]; try discriminate); reflexivity);
+          rewrite H1, H2, H3; reflexivity end
+      | ];
+      destruct (fold_zrange_pointwise G get F (Z.to_nat size) Hsame Hother init j) as [P1 P2]
+    end
+  end.
+  rewrite Z2Nat.id in P1, P2 by exact Hsz. rewrite EF in P1, P2. unfold get, F in P1, P2. cbn [fst snd] in P1, P2.
+  split; intros Hj.
+  - specialize (P1 Hj). injection P1 as Q1 Q2 Q3. repeat split; assumption.
+  - specialize (P2 Hj). injection P2 as Q1 Q2 Q3. repeat split; try assumption. apply l4_inj; exact Q1.
+Qed.
+End Compute.
 
 End Tie.
